@@ -108,6 +108,7 @@ fn main() {
                 Some(t) => format!("schema {}", (reg[i.parse::<usize>().unwrap()].schema)(&t)),
                 None => "badval".into(),
             }),
+            ["cursor", a, ops] => Some(epsh::ops::cursor_op(a, ops)),
             ["xxh", h] => Some(format!("xxh {}", xxhash_rust::xxh3::xxh3_64(&unhex(h)))),
             [""] => None,
             _ => Some("bad-op".into()),
